@@ -135,10 +135,12 @@ impl Ob {
                     }
                     if a.2 != b.2 {
                         let at = (0..a.2.len().max(b.2.len())).find(|&k| a.2.get(k) != b.2.get(k)).unwrap();
-                        let shown = if !a.1 && a.2.len() < 200 && b.2.len() < 200 && a.2.iter().chain(b.2.iter()).all(|&c| (9..127).contains(&c)) && (a.2.len() > 1 || b.2.len() > 1) {
-                            let sa: String = a.2.iter().map(|&c| c as u8 as char).collect();
-                            let sb: String = b.2.iter().map(|&c| c as u8 as char).collect();
-                            format!("original `{}` vs restored `{}`", sa, sb)
+                        let texty = !a.1 && (a.2.len() > 1 || b.2.len() > 1) && a.2.iter().chain(b.2.iter()).all(|&c| c == 9 || c == 10 || (32..256).contains(&c));
+                        let shown = if texty {
+                            // a string observation: show a window around the first difference
+                            let lo = at.saturating_sub(40);
+                            let win = |v: &Vec<u64>| -> String { String::from_utf8_lossy(&v[lo.min(v.len())..(at + 40).min(v.len())].iter().map(|&c| c as u8).collect::<Vec<u8>>()).into_owned() };
+                            format!("first difference at byte {}: original `..{}..` vs restored `..{}..`", at, win(&a.2), win(&b.2))
                         } else {
                             format!("element {} of {}: original {} vs restored {}", at, a.2.len(), Ob::render(a.1, &a.2, at), Ob::render(b.1, &b.2, at))
                         };
